@@ -27,7 +27,7 @@ def run(tier, seed):
     for res in runs:
         r.add_tlc(res)
         cases += [lc.to_case(c, "L") for c in res["cases"]]
-    for fam in ("calls", "control", "tail", "delim", "store", "wide", "applam", "reads"):
+    for fam in ("calls", "control", "tail", "delim", "store", "wide", "applam", "reads", "param"):
         cases += lc.run_family(vlib, fam, work, r, fresh=(fam not in ("calls", "wide", "applam", "reads")))
     cases = lc.dedup(cases)
     verdicts = vlib.replay(cases, work, jobs=12, timeout_ms=10000, name="c01")
